@@ -241,6 +241,68 @@ def normal_rules(run, db):
     run.check(ok, 'C19.normal', fc.qual, 'conic wiring', 'sag from r^2, slope from r, same (c, k)', 'conic sag/slope wiring changed', fc.loc())
 
 
+NONNEG_CALLS = {'abs', 'np.abs', 'np.absolute', 'np.fabs', 'np.hypot', 'np.sqrt', 'truenp.abs', 'np.linalg.norm'}
+
+
+def _single_def(fi, name, before):
+    defs = [n for n in walk_no_nested(fi.node) if isinstance(n, ast.Assign) and any(isinstance(t, ast.Name) and t.id == name for t in n.targets)]
+    return defs
+
+
+def _nonneg(fi, expr, depth=0):
+    """Syntactic proof that expr >= 0 elementwise."""
+    if isinstance(expr, ast.Call) and ast.unparse(expr.func) in NONNEG_CALLS:
+        return True
+    if isinstance(expr, ast.BinOp) and isinstance(expr.op, ast.Mult) and ast.dump(expr.left) == ast.dump(expr.right):
+        return True
+    if isinstance(expr, ast.BinOp) and isinstance(expr.op, ast.Pow) and isinstance(expr.right, ast.Constant) and isinstance(expr.right.value, int) and expr.right.value % 2 == 0:
+        return True
+    if isinstance(expr, ast.BinOp) and isinstance(expr.op, ast.Add):
+        return _nonneg(fi, expr.left, depth) and _nonneg(fi, expr.right, depth)
+    if isinstance(expr, ast.Name) and depth < 4:
+        defs = _single_def(fi, expr.id, expr)
+        return bool(defs) and all(_nonneg(fi, d.value, depth + 1) for d in defs)
+    return False
+
+
+def state_rules(run, db):
+    """Per-surface and per-iteration state: what may flow from one iteration to the next, and the convergence predicate."""
+    from .common import loop_carried
+    ft = db.func(SM + 'raytrace')
+    loops = [n for n in walk_no_nested(ft.node) if isinstance(n, ast.For) and 'surfaces' in ast.unparse(n.iter)]
+    if len(loops) != 1:
+        raise AnalysisError('raytrace: per-surface loop not found')
+    carried = loop_carried(loops[0])
+    allowed = {'Pj', 'Sj', 'nj'}
+    extra = sorted(carried - allowed)
+    run.check(not extra, 'C19.rigid', ft.qual, 'per-surface state',
+              'only the ray (Pj, Sj) and the current index nj flow from one surface to the next; everything else is recomputed from the surface at hand (carried: %s)' % sorted(carried),
+              'in the per-surface loop `%s` may keep its value from an EARLIER surface (read before it is assigned on some path through the loop body): a surface without that '
+              'attribute is then processed with the previous surface\'s value (e.g. a stale rotation R^T applied to an untilted surface after a tilted one)' % ', '.join(extra), ft.loc(loops[0]))
+    missing = sorted(allowed - carried)
+    if missing:
+        raise AnalysisError('raytrace: expected loop-carried state %s not found' % missing)
+    # Newton-Raphson: only the set of unconverged rays is carried; the convergence test is two-sided
+    fn = db.func(SM + 'newton_raphson_solve_s')
+    loops = [n for n in walk_no_nested(fn.node) if isinstance(n, ast.For) and 'maxiter' in ast.unparse(n.iter)]
+    if len(loops) != 1:
+        raise AnalysisError('newton_raphson_solve_s: iteration loop not found')
+    carried = loop_carried(loops[0])
+    run.check(carried == {'mask'}, 'C19.normal', fn.qual, 'iteration state', 'only the index set of unconverged rays is carried between Newton iterations (the step lengths live in sj)',
+              'Newton iteration carries %s between iterations, expected only the unconverged-ray index set `mask`' % sorted(carried), fn.loc(loops[0]))
+    tests = [n for n in ast.walk(loops[0]) if isinstance(n, ast.Compare) and len(n.ops) == 1 and any(isinstance(x, ast.Name) and x.id == 'eps' for x in ast.walk(n))]
+    if not tests:
+        raise AnalysisError('newton_raphson_solve_s: convergence test against eps not found')
+    for c in tests:
+        lhs, op, rhs = c.left, c.ops[0], c.comparators[0]
+        if isinstance(op, (ast.Gt, ast.GtE)):
+            lhs, rhs = rhs, lhs
+        ok = isinstance(op, (ast.Lt, ast.LtE, ast.Gt, ast.GtE)) and ast.unparse(rhs) == 'eps' and _nonneg(fn, lhs)
+        run.check(ok, 'C19.normal', fn.qual, 'convergence test', 'a ray counts as converged when the MAGNITUDE of its Newton step is below eps (`%s`, left side provably >= 0)' % ast.unparse(c),
+                  'the convergence test `%s` compares a signed quantity with eps: every ray whose Newton step is negative (negative sag with +z rays, rays travelling in -z, an '
+                  'overshooting step) is declared converged at once and its tangent-plane point is returned as the intersection' % ast.unparse(c), fn.loc(c))
+
+
 def check(run, db, tier):
     run.trust('vector algebra in NORM: vectors as linear combinations of {S, r} with Gram atoms S.S = 1, S.r = c, r.r = rho^2',
               "Snell's law in vector form: the tangential component scales by n/n'; mirror law S' = S - 2 (S.n) n")
@@ -249,7 +311,12 @@ def check(run, db, tier):
     run.rule('C19.rigid', 'local/global frame transforms are R(X-P) and R X + P with directions rotated only; raytrace uses (P, R) in and (P, R^T) out')
     run.rule('C19.normal', 'the normal handed to the interaction is the gradient of z - sag; Newton step and first guess; polar-to-Cartesian slope formula')
     run.rule('C19.axis0', 'no unguarded division by the radial coordinate on the normal path')
-    for fn in (vector_rules, frame_rules, normal_rules):
+    for fn in (vector_rules, frame_rules, normal_rules, state_rules):
         run.group(fn, run, db)
+    # the slopes handed to the normal are the derivatives of the sag (shared with C09.rule)
+    from .c02 import Proxy
+    from . import c09
+    run.group(c09.offaxis_rules, Proxy(run, {'C09.rule': 'C19.normal'}), db)
+    run.group(c09.sag_rules, Proxy(run, {'C09.rule': 'C19.normal'}), db)
     run.require_instances('C19.unit', 4)
     run.require_instances('C19.rigid', 6)
